@@ -260,7 +260,7 @@ def main(argv=None):
     vacuous = [r["case"] for r in results if r["status"] == "ok" and r["obligations"] == 0 and not r.get("allow_empty")]
     # ---- counterexamples -> replay on the real stack
     known = load_known()
-    out_dir = os.path.join(HERE, "evidence", "cex")
+    out_dir = os.environ.get("VERIF_CEX_DIR") or os.path.join(HERE, "evidence", "cex")  # concurrent runs of one check against different trees need distinct directories
     violations, known_hits, unreproduced = [], [], []
     seen_keys = set()
     # replay at most 3 counterexamples per obligation name (stop at the first that reproduces), in parallel
